@@ -2,6 +2,7 @@ package dsim
 
 import (
 	"fmt"
+	"os"
 	"testing"
 	"testing/synctest"
 	"time"
@@ -23,6 +24,9 @@ func runBubble(t *testing.T, s *Sim) {
 	runtimeSimRandSeed(Mix(s.Tape.Seed, 0x5eed) | 1)
 	defer runtimeSimRandSeed(0)
 	defer func() {
+		if os.Getenv("DSIM_NORECOVER") == "1" {
+			return
+		}
 		if r := recover(); r != nil {
 			LastInfra = &InfraError{Msg: fmt.Sprintf("bubble: %v", r)}
 		}
